@@ -76,6 +76,28 @@ def rules(ctx):
     purity.no_global_state(ctx, "R1.no-global-state")
     purity.no_unsafe(ctx, "R1.no-unsafe")
     error_discipline(ctx, keys + [SWAPS + "::improve_depot_and_recompute_transitions"])
+    PE = "<%s::path_exchange::PathExchange as %s>::apply" % (SWAPS, SWAP_TRAIT)
+    IDR = SWAPS + "::improve_depot_and_recompute_transitions"
+    o, fdp = ctx.require_fn("R2.path-exchange-filters-vehicles", "T1", PE,
+                            "PathExchange hands to improve_depots only vehicles that are real in the schedule it hands over (improve_depots panics otherwise)")
+    if fdp is not None:
+        cs = calls_to(fdp, IDR)
+        ok = False
+        if len(cs) == 1:
+            sched_root = root_local(fdp, cs[0].args[0].place.local) if cs[0].args[0].place is not None else None
+            vec_root = root_local(fdp, cs[0].args[1].place.local) if cs[0].args[1].place is not None else None
+            for d in fdp.defs.get(vec_root, ()):
+                i2 = d.instr
+                if d.kind == "call-mut" and i2 is not None and (i2.callee or "").endswith("::retain"):
+                    at = set()
+                    for a in i2.args[1:]:
+                        at |= fdp.slice_operand_pure(i2, a)["atoms"]
+                    cap_locals = fdp.slice(seed_locals=set().union(*[fdp.operand_uses(a) for a in i2.args[1:]]), control=False)["locals"]
+                    if call(S("is_vehicle")) in at and sched_root in cap_locals:
+                        ok = True
+        ctx.decide(o, ok, "the list is retained by is_vehicle of the schedule that is handed over",
+                   "the vehicle list is not filtered by is_vehicle of the resulting schedule: a provider that became a dummy tour is handed to "
+                   "improve_depots, which panics on non-vehicles")
     # R3: candidates only through the modification API
     common.who_may_call(ctx, "R3.schedule-new-callers", S("new"), [SCHEDULE + "::"],
                         "Schedule::new (trusted constructor) is called only inside impl Schedule", floor=12)
